@@ -299,7 +299,13 @@ pub struct LoadEval {
     pub state: u64,
 }
 
-pub const LOADERS_C17: &[&str] = &["load_leaf_verifier", "load_config", "load_private_dir", "load_private_files", "load_public_dir", "load_public_files", "load_aggregator", "stage_private", "stage_public"];
+pub const LOADERS_C17: &[&str] = &["load_leaf_verifier", "load_config", "load_private_dir", "load_private_files", "load_public_dir", "load_public_files", "load_aggregator", "stage_private", "stage_public", "load_leaf_verifier_bytes", "load_private_bytes", "load_public_bytes"];
+
+/// byte constructors receive slices the harness read itself: "bytes read from an over-cap file"
+/// says nothing about them (acceptance still does)
+pub fn harness_reads_files(loader: &str) -> bool {
+    loader.ends_with("_bytes") || loader == "load_private_new" || loader == "load_public_new"
+}
 
 /// files a loader legitimately reads
 pub fn loader_reads(loader: &str) -> &'static [&'static str] {
@@ -408,7 +414,7 @@ pub fn run_load(sb: &mut Sandbox, refs: &Refs, case: &LoadCase, extra_args: &[(&
     for (name, size) in &sizes {
         if *size > cap && loader_reads(&case.loader).contains(&name.as_str()) {
             let read = res.read_bytes.iter().filter(|(p, _)| p.rsplit('/').next() == Some(name.as_str())).map(|(_, n)| *n).sum::<u64>();
-            if read > 0 {
+            if read > 0 && !harness_reads_files(&case.loader) {
                 ev.findings.push(("load:oversize-file-read".into(), format!("{} read {read} bytes of {name}, which is {size} bytes (cap {cap})", case.loader)));
             }
             // the loader only has to refuse if it reached this file
@@ -570,6 +576,10 @@ pub fn c17_enumeration(refs: &Refs) -> Vec<LoadCase> {
                 _ => "dummy_proof.bin",
             };
             for f in file_faults(file, len, other, other_file, cap) {
+                // a byte constructor gets the whole file as a slice: keep that slice at cap + 1
+                if harness_reads_files(loader) && matches!(&f, SFault::Oversize { bytes, .. } if *bytes > cap + 1) {
+                    continue;
+                }
                 cases.push(LoadCase { gen: gi, faults: vec![f], loader: loader.to_string(), io_plan: vec![], fseed: 7 });
             }
         }
